@@ -34,8 +34,7 @@ def regexOk (pat : List Char) : Bool :=
 def cidrOk (c what : PyVal) : Bool :=
   match c with
   | .str n =>
-    (match Cidr.parseNet4 n with | .unmodelled => false | _ => true) &&
-    (match what with | .str a => !a.contains ':' | _ => true)
+    (match Cidr.parseNet n with | .unmodelled => false | _ => true)
   | _ => (match what with | .str _ => false | _ => true)
 
 mutual
